@@ -48,6 +48,9 @@ CLAIMED = {
  "C12": ("lattice", "bounded-exhaustive enumeration (full product of strings x message kinds x endpoints x signing; deviation-bounded configuration axes; all creation sequences <=3) with an independent wire decoder and the library's own IdP as oracles",
          "Every relay-state / name-ID string of <=2 tokens (thorough <=3) over a 21-token URL/HTML metacharacter alphabet plus a length ladder is sent through each of the six message constructors against four IdP endpoint URLs; the emitted URL or form is decoded independently and must yield exactly one message parameter, the relay state byte-for-byte, preserved endpoint parameters, no fragment, the configured fields and IDs; the library's IdP must validate each AuthnRequest and see the same relay state; message IDs must depend on >=16 bytes of the configured reader (also with short reads) and never repeat within any sequence of <=3 constructions.",
          "DESIGN.md §3 C12", TRUST + "; on the POST binding relay states are compared modulo the HTML newline normalisation a browser applies"),
+ "C13": ("lattice", "bounded-exhaustive enumeration (full product of signature methods x key types/sizes x message kinds x relay states x endpoint forms x request options) with independent signature verification under the certificate from the published metadata",
+         "For each of 9 method URIs x 7 keys x 7 message kinds x relay states x endpoint with/without query x request options the real constructor is called; a method that does not fit the key (or is unknown) must yield an error and no message; otherwise the detached redirect signature must verify over exactly the emitted SAMLRequest..SigAlg octets with crypto/rsa / crypto/ecdsa, and XML messages must carry exactly one enveloped signature verifying under a fresh context rooted in the certificate re-parsed from the SP's metadata, with the configured method.",
+         "DESIGN.md §3 C13", TRUST),
  "C15": ("lattice", "exhaustive sub-range sweeps (dense nanosecond ranges, digit-sparse values, carries), bounded grammar enumeration of duration strings vs a reference recogniser, instant lattice, 2^14 metadata shapes with a fixed-point oracle",
          "Durations: every value of dense and digit-sparse sub-ranges (thorough: all 1e9 sub-second values) x carries x sign round-trips exactly; every duration string of <=5 tokens agrees with a hand-written xsd:duration recogniser; instants on the year/date/time/rounding-edge/zone lattice round-trip to the ms-rounded UTC instant and documented lexical forms are accepted, others rejected; every library-generated SP/IdP metadata document and 2^14 generated EntityDescriptor shapes (plus EntitiesDescriptor by value/pointer) re-parse to an equal value and reach a fixed point after one generation.",
          "DESIGN.md §3 C15", "encoding/xml; the reference xsd:duration recogniser in checks/c15.go; values outside the enumerated sub-ranges are not covered"),
